@@ -399,6 +399,36 @@ func SwapGood(s []int, x int) []int {
 	}
 	return s[:n]
 }
+
+// ---- pattern: varint length loops (7 payload bits per byte) --------------------------
+func VarintLenGood(x uint64) int {
+	n := 1
+	for x >= 0x80 {
+		x >>= 7
+		n++
+	}
+	return n
+}
+
+func VarintLenGood2(x uint64) int {
+	n := 0
+	for {
+		n++
+		x >>= 7
+		if x == 0 {
+			return n
+		}
+	}
+}
+
+func VarintLenBad(x uint64) int {
+	n := 1
+	for x > 0x80 {
+		x >>= 7
+		n++
+	}
+	return n
+}
 `
 
 func runControls(c *Ctx, rep *Report) {
@@ -680,5 +710,17 @@ func runControls(c *Ctx, rep *Report) {
 			continue
 		}
 		expect("pattern swap-delete "+x.n, x.bad, len(swapDeleteSkips(c, f)) > 0)
+	}
+	for _, x := range []struct {
+		n   string
+		bad bool
+	}{{"VarintLenGood", false}, {"VarintLenGood2", false}, {"VarintLenBad", true}} {
+		f := fn(x.n)
+		if f == nil {
+			ru.Err("control "+x.n, "fixture function missing")
+			continue
+		}
+		loops, bad := varintLoops(f)
+		expect("pattern varint length loop "+x.n, x.bad, len(bad) > 0 || loops == 0)
 	}
 }
